@@ -176,6 +176,15 @@ def run_job(prog_unused, job, tier, seed):
                 else:
                     chk.res.inconclusive.append(f"not reproduced natively: {sig}: {msg[:300]}")
         chk.sample({'case': name, 'variants': len(variants)})
+        if job == 'case0':
+            # inventory (not a solver verdict): the statics reachable from compile_to_string in the MIR dump; the thread part of
+            # the property rests on none of them being written after its once-guarded initialisation
+            sts = []
+            for a in prog.allocs.values():
+                st = a.get('Static')
+                if st and (st.get('init') or {}).get('mutability') == 'Mut':
+                    sts.append(f"{st.get('name')}: {prog.ty(st['ty'])['str'][:60]}")
+            chk.res.notes.append(f"statics with interior mutability reachable from compile_to_string ({len(sts)}): {sorted(sts)}; thread-local: {sorted(v['name'] for v in prog.tls.values())}")
     finally:
         runner.close()
     chk.res.bounds = {'assignments': '3 (4) per module', 'modules': '<= 2', 'sources': '<= 2', 'integers': '2 x i128 symbolic'}
